@@ -16,17 +16,17 @@ static void parse_case(const unsigned char *src, int len, const char *ev)
 	memcpy(s, src, len);
 	s[len] = 0;
 	const char *p = (const char *)0x1;
-	int rets[600], curs[600], n = 0;
+	static int rets[70000], curs[70000]; int n = 0;
 	int r = hex_get_byte(s, &p);
 	for (;;) {
 		rets[n] = r;
 		curs[n] = p ? (int)(p - s) + 1 : 0;
 		n++;
-		if (r == -1 || n >= 590) break;
+		if (r == -1 || n >= 69990) break;
 		r = hex_get_byte(NULL, &p);
 	}
 	/* and once more after the end: must stay at -1 */
-	int again = (n < 590) ? hex_get_byte(NULL, &p) : -2;
+	int again = (n < 69990) ? hex_get_byte(NULL, &p) : -2;
 	printf("{\"e\":\"%s\",\"s\":[", ev);
 	for (int i = 0; i < len; i++) printf("%s%u", i ? "," : "", (unsigned char)s[i]);
 	printf("],\"r\":[");
@@ -66,10 +66,61 @@ static void dump_case(const unsigned char *b, int n)
 	free(out);
 	free(exact);
 }
+/* two parse sessions interleaved call by call (the cursor lives in the caller's *p; nothing else may be remembered) */
+static void two_sessions(const unsigned char *a, int la, const unsigned char *b, int lb)
+{
+	char *sa = malloc(la + 1), *sb = malloc(lb + 1);
+	memcpy(sa, a, la); sa[la] = 0; memcpy(sb, b, lb); sb[lb] = 0;
+	const char *pa = NULL, *pb = NULL;
+	int ra[400], rb[400], na = 0, nb = 0, da = 0, db = 0;
+	ra[na++] = hex_get_byte(sa, &pa); if (ra[0] == -1) da = 1;
+	rb[nb++] = hex_get_byte(sb, &pb); if (rb[0] == -1) db = 1;
+	while ((!da || !db) && na < 390 && nb < 390) {
+		if (!da) { int r = hex_get_byte(NULL, &pa); ra[na++] = r; if (r == -1) da = 1; }
+		if (!db) { int r = hex_get_byte(NULL, &pb); rb[nb++] = r; if (r == -1) db = 1; }
+	}
+	printf("{\"e\":\"Two\",\"sa\":[");
+	for (int i = 0; i < la; i++) printf("%s%u", i ? "," : "", a[i]);
+	printf("],\"sb\":[");
+	for (int i = 0; i < lb; i++) printf("%s%u", i ? "," : "", b[i]);
+	printf("],\"ra\":[");
+	for (int i = 0; i < na; i++) printf("%s%d", i ? "," : "", ra[i]);
+	printf("],\"rb\":[");
+	for (int i = 0; i < nb; i++) printf("%s%d", i ? "," : "", rb[i]);
+	printf("]}\n");
+	free(sa); free(sb);
+}
+/* large dumps: the text is judged by the driver (every line 32 lower-case hex digits + newline, last line shorter), the
+ * specification checks the tallies and that the text parses back to the same bytes */
+static void big_dump(int n)
+{
+	unsigned char *b = malloc(n ? n : 1);
+	for (int i = 0; i < n; i++) b[i] = (unsigned char)(i * 131 + (i >> 8));
+	char *out = NULL; size_t outlen = 0;
+	FILE *f = open_memstream(&out, &outlen);
+	int ret = hex_dump_to_file(f, b, n);
+	fclose(f);
+	int shape = 1;
+	size_t pos = 0;
+	for (int i = 0; i < n && shape; i++) {
+		static const char hx[] = "0123456789abcdef";
+		if (pos + 2 > outlen || out[pos] != hx[b[i] >> 4] || out[pos + 1] != hx[b[i] & 15]) shape = 0;
+		pos += 2;
+		if ((i % 16 == 15 || i == n - 1)) { if (pos >= outlen || out[pos] != '\n') shape = 0; pos++; }
+	}
+	if (pos != outlen) shape = 0;
+	const char *p = NULL; int back = 1;
+	int r = hex_get_byte(out, &p);
+	for (int i = 0; i < n; i++) { if (r != b[i]) { back = 0; break; } r = hex_get_byte(NULL, &p); }
+	if (back && r != -1) back = 0;
+	printf("{\"e\":\"BigDump\",\"n\":%d,\"ret\":%d,\"outlen\":%zu,\"shape\":%d,\"back\":%d}\n", n, ret, outlen, shape, back);
+	free(out); free(b);
+}
+
 int main(void)
 {
 	drv_cmd_t c;
-	unsigned char b[4096];
+	static unsigned char b[70000];
 	drv_install_handlers();
 	while (drv_read(&c, stdin)) {
 		if (drv_is(&c, "Strings")) strings(drv_arg(&c, 0));
@@ -81,6 +132,33 @@ int main(void)
 					dump_case(b, l);
 				}
 			for (int x = 0; x < 256; x++) { b[0] = x; dump_case(b, 1); }
+		}
+		else if (drv_is(&c, "Long")) {
+			/* lines far longer than any internal buffer might be: blanks / address digits before the ':' */
+			static const int lens[] = { 2046, 2047, 2048, 4095, 4096, 8191, 8192, 65535, 65536 };
+			for (unsigned k = 0; k < sizeof(lens) / sizeof(lens[0]); k++) {
+				int L = lens[k];
+				memset(b, ' ', L); memcpy(b + L, "10:ab cd\n20: ef", 16); parse_case(b, L + 16, "Parse"); printf("}\n");
+				memset(b, '1', L); memcpy(b + L, ":ab", 3); parse_case(b, L + 3, "Parse"); printf("}\n");
+				memset(b, ' ', L); memcpy(b + L, "ab", 2); parse_case(b, L + 2, "Parse"); printf("}\n");
+			}
+		}
+		else if (drv_is(&c, "Two")) {
+			drv_srand(drv_arg(&c, 0));
+			int n = drv_arg(&c, 1);
+			static const char *texts[] = { "0000: 00 11 22 33\n0004: 44 55 66 77\n0008: 88\n", "", "zz", "12 34\n56", "10: aa\nbb\n20: cc", "\n\n", "0x1f 0X2f :3f" };
+			for (int i = 0; i < 7; i++) for (int j = 0; j < 7; j++)
+				two_sessions((const unsigned char *)texts[i], strlen(texts[i]), (const unsigned char *)texts[j], strlen(texts[j]));
+			for (int x = 0; x < n; x++) {
+				unsigned char s1[64], s2[64]; int l1 = drv_below(60), l2 = drv_below(60);
+				for (int k = 0; k < l1; k++) { unsigned y = drv_below(10); s1[k] = y < 5 ? "0123456789abcdef"[drv_below(16)] : y < 7 ? ' ' : y < 8 ? '\n' : y < 9 ? ':' : 'x'; }
+				for (int k = 0; k < l2; k++) { unsigned y = drv_below(10); s2[k] = y < 5 ? "0123456789abcdef"[drv_below(16)] : y < 7 ? ' ' : y < 8 ? '\n' : y < 9 ? ':' : 'g'; }
+				two_sessions(s1, l1, s2, l2);
+			}
+		}
+		else if (drv_is(&c, "BigDumps")) {
+			int lo = drv_arg(&c, 0), hi = drv_arg(&c, 1), step = drv_arg(&c, 2);
+			for (int n = lo; n <= hi; n += step) big_dump(n);
 		}
 		else if (drv_is(&c, "Random")) {
 			drv_srand(drv_arg(&c, 0));
